@@ -11,6 +11,9 @@ Special3 == { << <<"d1", 1>>, <<"d1", 1>>, <<"d1", 1>> >>,
               << <<"d1", 1>>, <<"d2", 0>>, <<"d1", 1>> >>,
               << <<"d1", 0>>, <<"d2", 0>>, <<"d1", 0>> >>,
               << <<"d2", 2>>, <<"d1", 1>>, <<"d2", 1>> >> }
+(* init_balance: sorted with a repeated denomination, unsorted, with a zero, empty *)
+InitQ == { <<>>, << <<"d1", 1>> >>, << <<"d1", 1>>, <<"d1", 1>> >>, << <<"d1", 1>>, <<"d1", 1>>, <<"d2", 1>> >>,
+           << <<"d2", 1>>, <<"d1", 1>>, <<"d2", 1>> >>, << <<"d1", 0>>, <<"d2", 2>> >> }
 ListsQ == ListsUpTo2({0, 1, 2}) \cup Special3
 ListsT == ListsUpTo2({0, 1, 2, 3}) \cup Special3
             \cup {<<c1, c2, c3>> : c1 \in Coin({0, 1}), c2 \in Coin({0, 1}), c3 \in Coin({0, 1})}
